@@ -41,12 +41,161 @@ def strip_generics(s):
     return "".join(out).replace("::::", "::")
 
 
+# ---- mode parameters ---------------------------------------------------------------------------------------------
+# Twins may be thin wrappers over one shared private body that takes a MODE: a fieldless variant of a project enum,
+# written as a constant at the call (benign b97: get_value_exact / get_value_open = get_value(m, k, ctx,
+# UnmentionedKey::Missing / ::Unconstrained)).  The shared body is then read once per twin: a `match` / `if let` over
+# the mode parameter is walked only along the arms that the twin's constant selects, and the constant, consumed by that
+# selection, is not an item of the signature.  What differs between the twins is again what the selected arms do (the
+# reviewed `optional_prop` / `unknown`), not the name of the mode.  A mode that is read in any other way (compared,
+# stored, passed to a public function) is not consumed: its constant stays in the signature and shows as a difference.
+
+def _peel(e):
+    while isinstance(e, dict) and (e.get("k") in ("AddrOf", "DropTemps") or (e.get("k") == "Unary" and e.get("op") == "Deref")):
+        e = e["e"]
+    return e
+
+
+def _is_mode_const(n):
+    return isinstance(n, dict) and n.get("k") == "Path" and n.get("res") == "def" and n.get("def_local") and n.get("defkind") == "Ctor(Variant, Const)"
+
+
+def _pat_variants(p):
+    """the variants a pattern over a mode admits: a set of variant paths, "*" for a catch-all, None when not understood"""
+    k = p.get("k")
+    if k == "P.Wild" or (k == "P.Binding" and p.get("sub") is None):
+        return "*"
+    if k in ("P.Ref", "P.Deref"):
+        return _pat_variants(p["sub"])
+    if k in ("P.Expr", "P.Struct") and p.get("res") == "def" and (p.get("defkind") or "") in ("Ctor(Variant, Const)", "Variant") and not p.get("fields"):
+        return {p["def"]}
+    if k == "P.Or":
+        out = set()
+        for q in p["pats"]:
+            v = _pat_variants(q)
+            if v is None or v == "*":
+                return v
+            out |= v
+        return out
+    return None
+
+
+def _mode_branches(n, lids):
+    """n is a `match` / `if let` whose scrutinee is one of the locals `lids` -> (lid, [(variants | "*", guarded, subtree)]);
+    None when n is something else or one of its patterns is not understood"""
+    if n.get("k") == "Match":
+        s, arms = _peel(n["scrut"]), [(a["pat"], a.get("guard"), a) for a in n["arms"]]
+    elif n.get("k") == "If" and n["cond"].get("k") == "Let":
+        s, arms = _peel(n["cond"]["init"]), [(n["cond"]["pat"], None, n["then"])] + ([({"k": "P.Wild"}, None, n["else"])] if n.get("else") else [])
+    else:
+        return None
+    if not isinstance(s, dict) or s.get("k") != "Path" or s.get("res") != "local" or s.get("lid") not in lids:
+        return None
+    out = []
+    for pat, guard, sub in arms:
+        v = _pat_variants(pat)
+        if v is None:
+            return None
+        out.append((v, guard is not None, sub))
+    return s["lid"], out
+
+
+def _selected(n, env):
+    """the subtrees of a mode test n that can run when the mode parameters hold the constants of env (first match wins)"""
+    mb = _mode_branches(n, env)
+    if mb is None:
+        return None
+    lid, branches = mb
+    out = []
+    for v, guarded, sub in branches:
+        if v == "*" or env[lid] in v:
+            out.append(sub)
+            if not guarded:
+                break
+    return out
+
+
+def _helper_params(F, tg, n):
+    """[(argument node, parameter pattern)] of a call n of the local function tg, in parameter order"""
+    args = ([n["recv"]] if n["k"] == "MethodCall" else []) + list(n.get("args") or [])
+    params = F.hir[tg]["params"]
+    return list(zip(args, params)) if len(args) == len(params) else []
+
+
+def _mode_consumed(F, cr, tg, lid, depth):
+    """every read of the parameter `lid` of tg is the scrutinee of an understood mode test, or hands the mode on to a
+    private local helper that consumes it in the same way"""
+    body = F.hir[tg]["body"]
+    ok = set()
+    for n in walk(body):
+        if _mode_branches(n, {lid}) is not None:
+            ok.add(id(_peel(n["scrut"] if n["k"] == "Match" else n["cond"]["init"])))
+        elif depth > 0 and n["k"] in ("Call", "MethodCall"):
+            cal = n.get("callee") if n["k"] == "Call" else (n.get("resolved") or n.get("callee"))
+            t2 = F._callee_gid(cr, cal) if cal else None
+            if t2 in F.hir and F.fns.get(t2) is not None and F.fns[t2].vis != "Public":
+                for a, p in _helper_params(F, t2, n):
+                    if a.get("k") == "Path" and a.get("res") == "local" and a.get("lid") == lid and p.get("k") == "P.Binding" \
+                            and p.get("mode") == "BindingMode(No, Not)" \
+                            and (p["lid"] == lid if t2 == tg else _mode_consumed(F, cr, t2, p["lid"], depth - 1)):
+                        ok.add(id(a))      # (its own recursion hands the mode on in the same position)
+    return all(id(n) in ok for n in walk(body) if n["k"] == "Path" and n.get("res") == "local" and n.get("lid") == lid)
+
+
+def walk_specialised(F, gid, depth=2, crate=None, _seen=None, private_only=False, _env=None):
+    """facts.walk_inlined (same order of descent, same `each callee once`, yields (node, owner gid)) that reads the
+    private helpers per MODE: see the comment above.  Without mode constants it yields exactly what walk_inlined yields."""
+    seen = _seen if _seen is not None else {gid}
+    env = _env or {}
+    tree = F.hir.get(gid)
+    if tree is None:
+        return
+    f = F.fns.get(gid)
+    cr = crate or (f.crate if f is not None else None)
+    stack = [tree["body"]]
+    drop = set()          # mode constants consumed by the specialisation of the helper they are passed to
+    while stack:
+        n = stack.pop()
+        if isinstance(n, list):
+            stack.extend(v for v in reversed(n) if isinstance(v, (dict, list)))
+            continue
+        if id(n) in drop:
+            continue
+        if "k" not in n:
+            stack.extend(v for v in reversed(list(n.values())) if isinstance(v, (dict, list)))
+            continue
+        yield n, gid
+        sel = _selected(n, env) if env else None
+        if sel is not None:
+            # a test of the mode: only what the twin's constant selects (the scrutinee is the bare parameter)
+            stack.extend(reversed(sel))
+            continue
+        if depth > 0 and n["k"] in ("Call", "MethodCall"):
+            cal = n.get("callee") if n["k"] == "Call" else (n.get("resolved") or n.get("callee"))
+            tg = (F._callee_gid(cr, cal) if cr else cal) if cal else None
+            if tg in F.hir and not (private_only and (F.fns.get(tg) is None or F.fns[tg].vis == "Public")):
+                env2 = {}
+                for a, p in _helper_params(F, tg, n):
+                    if p.get("k") != "P.Binding" or p.get("mode") != "BindingMode(No, Not)":
+                        continue
+                    v = a["def"] if _is_mode_const(a) else env.get(a.get("lid")) if a.get("k") == "Path" and a.get("res") == "local" else None
+                    if v is not None and _mode_consumed(F, cr, tg, p["lid"], depth - 1):
+                        env2[p["lid"]] = v
+                        drop.add(id(a))
+                key = (tg, tuple(sorted(env2.values()))) if env2 else tg
+                if key not in seen:
+                    seen.add(key)
+                    for x in walk_specialised(F, tg, depth - 1, cr, seen, private_only, env2):
+                        yield x
+        stack.extend(v for v in reversed(list(n.values())) if isinstance(v, (dict, list)))
+
+
 def signature(F, g):
     """set of semantic items of function g"""
     f = F.fns[g]
     items = set()
     local_traits = {t["id"] for cr in F.crates.values() for t in cr.get("traits", [])}
-    for n, owner in walk_inlined(F, g, depth=2, private_only=True):
+    for n, owner in walk_specialised(F, g, depth=2, private_only=True):
         if n["k"] in ("Call", "MethodCall"):
             cal = n.get("resolved") or n.get("callee") or ""
             tg = F._callee_gid(f.crate, cal)
